@@ -203,6 +203,8 @@ def gen_case(seed, prop, idx):
         case["hardlink"] = True
     if idx % 4 == 2:
         case["ctx"] = True
+    if prop in ("C04", "C12", "C13") and idx % 9 == 4:
+        case["mode"] = "w+"           # read-write, truncating when opened: rewrites must not truncate again
     import fam_hist
 
     w = {"C04": dict(ins=34, read=14, get=6, rm=16, upd=16, drop=3, rmall=3, reidx=3, reopen=5),
@@ -219,6 +221,9 @@ def gen_case(seed, prop, idx):
     ops = [o for o in ops if not _has_sentinel_tag_value(o)]     # C05's known finding, not C04's subject
     if case.get("enc") == "latin-1":
         ops = [o for o in ops if latin1_ok(o)]
+    if case.get("mode") == "w+":
+        # opening in "w+" truncates, by the user's choice: closing and reopening in that mode is not a no-op
+        ops = [o for o in ops if D.op_name(o) != "reopen"]
     if prop == "C15" and case.get("mode") in ("r", "a", "w+"):
         # pre-populate through a normal handle, then reopen in the mode under test
         case["prefill"] = [g.insert_op() for _ in range(2)]
@@ -638,6 +643,8 @@ def noop_update_checks(root):
         ("tags={'a': 'x'} where a == 'x'", lambda db: db.update(tf.TagQuery().a == "x", tags={"a": "x"})),
         ("measurement='m' where it is 'm'", lambda db: db.update_all(measurement="m")),
         ("unset_tags of a key no point has", lambda db: db.update_all(unset_tags=["zz"])),
+        ("tags={'a': 'x'} on points that hold a NaN field", lambda db: db.update(tf.FieldQuery().w == 1, tags={"a": "x"})),
+        ("fields=callable returning {} on points that hold a NaN field", lambda db: db.update_all(fields=lambda f: {})),
     ]
     for au in (True, False):
         for name, call in cases:
@@ -649,8 +656,10 @@ def noop_update_checks(root):
             tempfile.tempdir = tmpd
             try:
                 db = tf.TinyFlux(path, auto_index=au)
-                db.insert_multiple([tf.Point(time=T, measurement="m", tags={"a": "x"}, fields={"v": 0.0, "w": 1}),
-                                    tf.Point(time=T, measurement="m", tags={"a": "x"}, fields={"v": 0.0, "w": 1})])
+                extra = {"n": float("nan")} if "NaN" in name else {}
+                db.insert_multiple([tf.Point(time=T, measurement="m", tags={"a": "x"}, fields=dict({"v": 0.0, "w": 1}, **extra)),
+                                    tf.Point(time=T, measurement="m", tags={"a": "x"}, fields=dict({"v": 0.0, "w": 1}, **extra))],
+                                   compact_key_prefixes=(len(name) % 2 == 0))
                 before = open(path, "rb").read()
                 try:
                     r = call(db)
